@@ -813,6 +813,22 @@ impl Property for C06 {
             // first (it stays the running winner throughout) or last, or ascending
             ordered = rng.below(6) as u8;
         }
+        if ncand < 257 && rng.chance(1, 30) {
+            // a tie family: the versions tie under the dewey rule and the names differ first
+            // in one character, drawn so that byte order, UTF-16 code-unit order, scalar
+            // order after case folding and collation order all disagree somewhere
+            // (private-use and compatibility characters above U+E000 against characters
+            // beyond the BMP; wave 17, C06-53)
+            const TIE_CHARS: [&str; 14] =
+                ["\u{e000}", "\u{fb01}", "\u{ffff}", "\u{10000}", "\u{1f600}", "\u{10ffff}", "\u{e9}", "\u{7f}", "\u{80}", "Z", "a", "+", "\u{d7ff}", "\u{ff5e}"];
+            const TIE_VERSIONS: [&str; 5] = ["1.0", "1.0.0", "1.00", "1.0nb0", "1.0_0"];
+            pattern = rng.pick_str(&["fo*-[0-9]*", "*-[0-9]*", "*", "foo*", "fo?*"]).to_string();
+            let same_version = rng.chance(2, 3);
+            let v0 = *rng.pick(&TIE_VERSIONS);
+            cands = (0..ncand)
+                .map(|_| format!("foo{}-{}", rng.pick_str(&TIE_CHARS), if same_version { v0 } else { *rng.pick(&TIE_VERSIONS) }))
+                .collect();
+        }
         if rng.chance(1, 4) {
             // force equal names
             let c = cands[0].clone();
